@@ -128,6 +128,11 @@ func (m *protoMon) step(w *world, ev event, outs []outMsg) (string, string) {
 				}
 			}
 		}
+		if before != 'W' && m.state == 'W' {
+			// the logon that established the identifiers is over: whoever logs on next (or is refused next) is
+			// answered with the identifiers of its own Logon
+			m.ids = [2]string{}
+		}
 	}
 	if m.prop == "C07" && !m.everLogged {
 		// judged first: what was transmitted counts even if the session has meanwhile shut itself down
